@@ -7,6 +7,28 @@ VERIF = os.path.dirname(os.path.dirname(os.path.abspath(__file__)))
 TECH = 'Verus contracts on functions extracted verbatim from /repo (deductive, Z3)'
 
 CHECKS = {
+    'C04': dict(
+        text='Proof of per-function obligations (partial): line-comment transformer safety T -- over every layout the renderer can choose, '
+             'no text ever follows an unterminated `//` comment and every converter result ends outside a comment -- for the flow engine and '
+             'every converter built on it, the optional-parenthesis guard G (exact shape of optional_paren; unprotected only for '
+             'self-delimited constructs; body evaluated in continued-code mode).',
+        note='Partial: list/chain/plain engines and the functions of DESIGN 3.4 are contract-only stubs here unless listed in evidence as '
+             'under contract; token fusion is only covered by the exact push_doc spacing contract. Trusted: parser facts PF0-PF2 '
+             '(prelude/treefacts.rs), pretty shim, renderer only ever picks a layout in the join semantics of T.',
+        ref='DESIGN.md 5/C04', technique=TECH),
+    'C06': dict(
+        text='Proof of per-function obligations (partial): T (no comment absorbs code, no code inside a comment) for the flow engine and its '
+             'converters; line comments re-emitted as Text(token text); the attribute pass flags every node with a comment child; '
+             'has_linebreak/count_linebreaks recognise every Typst newline.',
+        note='Partial: comment order/placement (W) is proved only for the functions listed in evidence; engines not under contract are assumed. '
+             'Trusted: parser facts, shims.',
+        ref='DESIGN.md 5/C06', technique=TECH),
+    'C12': dict(
+        text='Proof of per-function obligations (partial): N -- every Nest a function under contract builds has amount config.tab_spaces, and '
+             'column alignment (Align) occurs only around plain comment lines; to_config maps --tab-width to tab_spaces; '
+             'Config::with_tab_spaces changes only that field.',
+        note='Partial: functions that are stubs in every unit are assumed; the ratio statement for wide widths needs the renderer (not modelled).',
+        ref='DESIGN.md 5/C12', technique=TECH),
     'C05': dict(
         text='Proof, per function under contract, of panic-freedom (Verus safety obligations: overflow, bounds, unwrap, unreachable, '
              'str slicing on char boundaries, callee preconditions) for every input satisfying the stated tree facts, plus: '
